@@ -2314,8 +2314,11 @@ class Model:
                         # and derivative parameters are not considered dependencies - so we do
                         # not need to add a dependency edge to the graph
                         G.add_edge(dep, par.name)
-                if par.pop_aggregation and par.pop_aggregation[1] in par_derivative and par_derivative[par.pop_aggregation[1]] != "y":
-                    G.add_edge(par.pop_aggregation[1], par.name)
+                if par.pop_aggregation:
+                    # Both the aggregated variable and the optional weighting variable must be evaluated first if they are parameters
+                    for agg_var in [par.pop_aggregation[1]] + par.pop_aggregation[3:4]:
+                        if agg_var in par_derivative and par_derivative[agg_var] != "y":
+                            G.add_edge(agg_var, par.name)
 
                 if par._is_dynamic or (self.progset and par.name in self.progset.pars):
                     # If the parameter is dynamic or appears in the progset, then we need to
